@@ -133,7 +133,7 @@ def handleMilp (args : List Val) : Option String := do
 
 /-! request `["bnb", c, A, b, ints, minimize, eps, maxIter, maxNodes, gapTol, solutionLimit, warm | null]`
   (`ints` ascending = CPython's iteration order of a set of small non-negative ints)
-reply `[status, x | null, obj | null, nodes, sols, near, nodesOk]` : the mirror `solveMilp` of `solve_milp(heuristics=False)` -/
+reply `[status, x | null, obj | null, nodes, sols, near, nodesOk, maxNodeLpIters]` : the mirror `solveMilp` of `solve_milp(heuristics=False)` -/
 def handleBnb (args : List Val) : Option String := do
   let [c, A, b, ints, mn, eps, mi, mxn, gap, sl, warm] := args | none
   let c ← c.toRats?; let A ← A.toRatss?; let b ← b.toRats?; let ints ← ints.toNats?
@@ -142,13 +142,29 @@ def handleBnb (args : List Val) : Option String := do
   let warm ← warm.toOpt? Val.toRats?
   let o := solveMilp ⟨c, A, b, ints, mn⟩ ⟨eps, mi, mxn, gap, sl, warm⟩
   pure (Val.arr [.str o.status.name, .ofOpt .ofRats o.x, .ofOpt .ofRat o.objective, .int o.nodes,
-    .arr (o.sols.map .ofRats), .bool o.near, .bool o.ok]).render
+    .arr (o.sols.map .ofRats), .bool o.near, .bool o.ok, .int o.maxIt]).render
+
+/-! request `["detbin", eps, sets]`, `sets` = list of `[A, b, ints, n]`
+reply: per set `[detectBinary at 0.999·eps, at eps, at 1.001·eps]` – the mirror of `_detect_binary` that
+`binary_tightening_sound` is about -/
+def handleDetbin (args : List Val) : Option String := do
+  let [eps, sets] := args | none
+  let eps ← eps.toRat?
+  let sets ← sets.toArr?
+  let out ← sets.mapM fun (v : Val) => do
+    let [A, b, ints, n] ← v.toArr? | none
+    let A ← A.toRatss?; let b ← b.toRats?; let ints ← ints.toNats?; let n ← n.toNat?
+    let P : LP := ⟨A, b, zeros n⟩
+    let f (e : Rat) : Bool := detectBinary P ints e
+    pure (Val.arr [.bool (f (eps * 999 / 1000)), .bool (f eps), .bool (f (eps * 1001 / 1000))])
+  pure (Val.arr out).render
 
 def handle (line : String) : String :=
   match request line with
   | some ("lp", args) => (handleLp args).getD (err "bad arguments")
   | some ("milp", args) => (handleMilp args).getD (err "bad arguments")
   | some ("bnb", args) => (handleBnb args).getD (err "bad arguments")
+  | some ("detbin", args) => (handleDetbin args).getD (err "bad arguments")
   | _ => err "bad request"
 
 end Solvor.Lp
